@@ -58,6 +58,8 @@ func checkOne(src []byte, v px.Ver) (string, string, bool) {
 	if p := px.Guard(func() { out = px.Print(r.Root) }); p != "" {
 		return "printer-panic", fmt.Sprintf("[%s] printer panicked: %s", v, p), true
 	}
+	// "the original bytes" are what the buffer held before the parse (token values alias it)
+	src = harness.Pristine(src)
 	if bytes.Equal(out, src) {
 		return "", "", true
 	}
